@@ -1,6 +1,15 @@
 import AdeuModel.Lemmas.Engine
+import AdeuModel.Lemmas.Frame
 /-
 C08 — edit accounting is honest and skipped edits leave no trace.
+
+`Adeu.Doc.applyEdits` is the model of `RedlineEngine.apply_edits` for mixed batches (edits addressed by
+offset first, then searched edits by descending target length with conflict tracking);
+`applyHeuristic` models `_apply_single_edit_heuristic`, `applyIndexed` models
+`_apply_single_edit_indexed`.  `Sess.frame` is everything observable of a session except run boundaries:
+the canonical content stream of every story (text, per-character format, revision marks with id /
+author / date, comment anchors, non-text content, paragraph / table / row / cell properties, order),
+the four comment lists and the id counters.
 -/
 namespace Adeu.Props.C08
 open Adeu Adeu.Doc
@@ -9,6 +18,48 @@ open Adeu Adeu.Doc
 theorem C08_total (s : Sess) (edits : List IEdit) :
     (applyEditsIndexed s edits).2.1 + (applyEditsIndexed s edits).2.2 = edits.length :=
   applyEditsIndexed_total s edits
+
+/-- applied + skipped equals the number of edits submitted — mixed batches of offset-addressed and
+searched edits, any document, any matcher results (unconditional). -/
+theorem C08_total_mixed (s : Sess) (edits : List HEdit) :
+    (Doc.applyEdits s edits).2.1 + (Doc.applyEdits s edits).2.2 = edits.length :=
+  applyEdits_total s edits
+
+/-- An edit whose target is empty is counted as skipped and has no effect at all. -/
+theorem C08_skip_empty_target (s : Sess) (occ : List (Nat × Nat)) (e : HEdit) (h : e.target = []) :
+    applyHeuristic s occ e = (s, false, none) :=
+  applyHeuristic_empty_target s occ e h
+
+/-- An edit whose target cannot be located — it occurs literally (also with quotes normalised) in neither
+the raw nor the accepted text *as a client extracts them*, and the non-literal matchers return nothing —
+is counted as skipped and has no effect at all. -/
+theorem C08_skip_not_found (s : Sess) (occ : List (Nat × Nat)) (e : HEdit) (hr : e.fzRaw = none) (hc : e.fzClean = none)
+    (h1 : Markup.find e.target (extractText false s.doc) = none)
+    (h2 : Markup.find (Markup.replaceSmart e.target) (Markup.replaceSmart (extractText false s.doc)) = none)
+    (h3 : Markup.find e.target (extractText true s.doc) = none)
+    (h4 : Markup.find (Markup.replaceSmart e.target) (Markup.replaceSmart (extractText true s.doc)) = none) :
+    applyHeuristic s occ e = (s, false, none) := by
+  rw [← spans_text_eq_extractText] at h1 h2 h3 h4
+  exact applyHeuristic_not_found s occ e (locate_absent s e hr hc h1 h2 h3 h4)
+
+/-- Whatever the reason, a searched edit that is reported as skipped (not found, empty, conflicting with an
+earlier edit of the batch, lying in deleted text, refused by the indexed step) leaves no trace. -/
+theorem C08_skipped_leaves_no_trace (s : Sess) (occ : List (Nat × Nat)) (e : HEdit)
+    (h : (applyHeuristic s occ e).2.1 = false) : (applyHeuristic s occ e).1.frame = s.frame :=
+  applyHeuristic_skip_frame s occ e h
+
+/-- The same for an edit addressed by offset (raw or accepted view, any operation kind). -/
+theorem C08_skipped_indexed_leaves_no_trace (s : Sess) (clean : Bool) (start len : Nat) (newText : Str)
+    (comment : Option Str) (op : Option EOp) (h : (applyIndexed s clean start len newText comment op).2 = false) :
+    (applyIndexed s clean start len newText comment op).1.frame = s.frame :=
+  applyIndexed_skip_frame s clean start len newText comment op h
+
+/-- If every edit of a batch is skipped, the document content is unchanged. -/
+theorem C08_all_skipped_unchanged (s : Sess) (edits : List HEdit) (h : (Doc.applyEdits s edits).2.1 = 0) :
+    canonDoc (Doc.applyEdits s edits).1.doc = canonDoc s.doc ∧ (Doc.applyEdits s edits).1.doc.comments = s.doc.comments := by
+  have hf := applyEdits_none_applied s edits h
+  simp only [Sess.frame, Prod.mk.injEq] at hf
+  exact ⟨hf.1, hf.2.1⟩
 
 /-- The only thing a skipped edit may leave behind is a run boundary, and a run boundary is no
 content: splitting changes nothing the canonical content sees. -/
@@ -22,5 +73,27 @@ theorem C08_no_nesting_core (ns : List Node) (i : Nat) (r : Run) (dRev iRev : Re
     (hi : ns[i]? = some (.run r)) :
     replaceAt ns i dRev iRev ch = ns.take i ++ [.del dRev [r.deleted], .ins iRev ch] ++ ns.drop (i + 1) := by
   simp [replaceAt, hi]
+
+/-! Non-vacuity: a one-paragraph document and an edit whose target is absent: the hypotheses of
+`C08_skip_not_found` hold, hence those of `C08_skipped_leaves_no_trace` and `C08_all_skipped_unchanged`
+(the driver also counts, per run, on how many generated batches these hypotheses held). -/
+def sampleDoc : Document :=
+  { headers := [], footers := [], titlePg := false, evenOdd := false, comments := [], commentsEx := [], hasExtended := false,
+    body := [.para { style := none, ppr := [], nodes := [.run { b := none, i := none, rest := [], ch := [.t "Hello big world".toList] }] }] }
+
+def sampleSess : Sess := { doc := sampleDoc, author := "Q".toList, date := "D".toList, nextRev := 0, nextCom := 1 }
+
+def absentEdit : HEdit := { target := "absent".toList, new := "x".toList }
+
+theorem sample_text (c : Bool) : extractText c sampleSess.doc = "Hello big world".toList := by
+  simp only [extractText, docParts, sampleSess, sampleDoc, storyOf, List.find?, containerText, blocksText, List.map, List.filter,
+    joinWith, List.nil_append, List.append_nil, Bool.false_eq_true, ↓reduceIte]
+  cases c <;> decide +kernel
+
+example : applyHeuristic sampleSess [] absentEdit = (sampleSess, false, none) := by
+  apply C08_skip_not_found sampleSess [] absentEdit rfl rfl <;> rw [sample_text] <;> decide +kernel
+
+example : (applyHeuristic sampleSess [] absentEdit).2.1 = false := by
+  rw [C08_skip_not_found sampleSess [] absentEdit rfl rfl] <;> (try rw [sample_text]) <;> decide +kernel
 
 end Adeu.Props.C08
